@@ -96,57 +96,48 @@ def build_unit(ob, src_text):
     lines = src_text.split("\n")
     log = []
     # X6: type shape check
-    for needle in ("pub struct Interval {", "pub(crate) first: CodePoint,", "pub(crate) last: CodePoint,",
-                   "pub struct CodePointSet {", "ivs: Vec<Interval>,", "pub type CodePoint = u32;",
-                   "pub const CODE_POINT_MAX: CodePoint = 0x10FFFF;"):
+    for needle in ov.get("type_checks", []):
         if not any(l.strip() == needle for l in lines):
-            raise AnchorLost("type declaration changed: %r not found" % needle)
-    log.append("X6 type declarations Interval/CodePointSet/CodePoint/CODE_POINT_MAX match the prelude")
-    pieces = []
+            raise AnchorLost("declaration changed: %r not found" % needle)
+    log.append("X6 %d type/use declarations match the prelude" % len(ov.get("type_checks", [])))
+    with open(os.path.join(VERUS_DIR, ov["prelude"])) as f:
+        text = f.read()
     for item in ov["items"]:
         s, e = extract_fn(lines, item["anchor"])
-        body = lines[s:e + 1]
+        body = list(lines[s:e + 1])
         sha = hashlib.sha256("\n".join(body).encode()).hexdigest()
         log.append("X1 %s: lines %d-%d of %s, sha256 %s" % (item["anchor"], s + 1, e + 1, ov["source"], sha[:16]))
         if item.get("drop_attrs"):
             log.append("X2 dropped attributes above the item: %s" % ", ".join(item["drop_attrs"]))
-        pieces.append(body)
-    body = pieces[0]
-    # signature
-    sig = ov["signature"]
-    if body[0].strip() != sig["replace"]:
-        raise AnchorLost("signature line differs")
-    body[0] = "    " + sig["with"]
-    log.append("X5 requires/ensures attached to the signature")
-    # insertions: compute positions on the original body first, apply from the bottom up
-    ops = []
-    for ins in ov["insertions"]:
-        if "replace_line" in ins:
-            k = nth_line(body, ins["replace_line"], ins.get("occurrence", 1))
-            ops.append((k, "replace", ins))
-        elif "after_line" in ins:
-            k = nth_line(body, ins["after_line"], ins.get("occurrence", 1))
-            ops.append((k, "after", ins))
-        else:
-            k = nth_line(body, ins["before_line"], ins.get("occurrence", 1))
-            ops.append((k, "before", ins))
-    for k, how, ins in sorted(ops, key=lambda t: -t[0]):
-        new = ins["with"].split("\n")
-        if how == "replace":
-            indent = body[k][:len(body[k]) - len(body[k].lstrip())]
-            body[k:k + 1] = [indent + new[0]] + new[1:]
-        elif how == "after":
-            if not body[k].rstrip().endswith((";", "{", "}")):
-                # X5s: a unit-typed tail expression becomes a statement (`;` appended) so that ghost code may follow it
-                body[k] = body[k].rstrip() + ";"
-                log.append("X5s terminated the tail expression %r with `;`" % ins["after_line"])
-            body[k + 1:k + 1] = new
-        else:
-            body[k:k] = new
-        log.append("%s %s %r" % (ins["rule"], how, ins.get("replace_line") or ins.get("after_line") or ins.get("before_line")))
-    with open(os.path.join(VERUS_DIR, "prelude.rs")) as f:
-        prelude = f.read()
-    text = prelude.replace("//@@EXTRACTED@@", "\n".join(body))
+        body[0] = "    " + item["signature"]
+        log.append("X5 requires/ensures attached to the signature of %s" % item["marker"])
+        ops = []
+        for ins in item.get("insertions", []):
+            if "replace_line" in ins:
+                ops.append((nth_line(body, ins["replace_line"], ins.get("occurrence", 1)), "replace", ins))
+            elif "after_line" in ins:
+                ops.append((nth_line(body, ins["after_line"], ins.get("occurrence", 1)), "after", ins))
+            else:
+                ops.append((nth_line(body, ins["before_line"], ins.get("occurrence", 1)), "before", ins))
+        for k, how, ins in sorted(ops, key=lambda t: -t[0]):
+            new = ins["with"].split("\n")
+            if how == "replace":
+                indent = body[k][:len(body[k]) - len(body[k].lstrip())]
+                body[k:k + 1] = [indent + new[0]] + new[1:]
+            elif how == "after":
+                if not body[k].rstrip().endswith((";", "{", "}")):
+                    # X5s: a unit-typed tail expression becomes a statement (`;` appended) so that ghost code may follow
+                    body[k] = body[k].rstrip() + ";"
+                    log.append("X5s terminated the tail expression %r with `;`" % ins["after_line"])
+                body[k + 1:k + 1] = new
+            else:
+                body[k:k] = new
+            log.append("%s %s %r (occurrence %d)" % (ins["rule"], how, ins.get("replace_line") or ins.get("after_line")
+                                                     or ins.get("before_line"), ins.get("occurrence", 1)))
+        marker = "//@@EXTRACTED:%s@@" % item["marker"]
+        if text.count(marker) != 1:
+            raise AnchorLost("prelude marker %s missing" % marker)
+        text = text.replace(marker, "\n".join(body))
     return text, log
 
 
@@ -168,7 +159,7 @@ def run_group(pid, obs, args, records, log, mk_record):
             path = os.path.join(d, "%s.rs" % ob.name)
             with open(path, "w") as f:
                 f.write(text)
-            cmd = ["verus", path, "--time"]
+            cmd = ["verus", path, "--time", "--triggers-mode", "silent"]
             rc, out, secs, to = run(cmd, cwd=d, timeout=ob.timeout)
             m = re.search(r"verification results:: (\d+) verified, (\d+) errors", out)
             r = {"n_checks": 0, "failed": [], "covers_total": 0, "covers_satisfied": 0, "solver_s": None,
@@ -202,6 +193,8 @@ def run_group(pid, obs, args, records, log, mk_record):
             # mechanical scan of the verified text for assumptions
             trusted = re.findall(r"#\[verifier::external_body\]\s*\n\s*pub fn (\w+)", text)
             rec["stubs"] = ["external_body (assumed contract): %s" % t for t in trusted]
+            rec["stubs"] += ["assume_specification (assumed std contract): %s" % t
+                             for t in re.findall(r"assume_specification<[^>]*>\s*\[\s*([\w:]+)\s*\]", text)]
             rec["assumes"] = len(re.findall(r"\bassume\(|\badmit\(", text))
             if r["status"] == "violated":
                 rec["_res"] = r
